@@ -34,7 +34,7 @@ CELLS = [f"{r}.{d}.{s}" for r in ("plain", "renamed")
          for s in ("supplied", "omitted")]
 REQUIRED_COUNTERS = ["objects", "subsets", "members.checked", "owner.class", "owner.parsed", "owner.untyped",
                      "novalue.calls", "novalue.default_valid", "novalue.default_invalid", "novalue.notpassed",
-                     "class_novalue.calls", "pattern_overlap"] + [f"cell.{c}" for c in CELLS]
+                     "class_novalue.calls", "pattern_overlap", "defaults.scribbled"] + [f"cell.{c}" for c in CELLS]
 
 
 def plan(tier):
@@ -54,7 +54,9 @@ def leaf_spec(rng):
     if roll < 0.7:
         return {"t": "Boolean", "kw": {}}
     if roll < 0.8:
-        return {"t": "Array", "items": {"t": "Number", "kw": {}}, "kw": rng.choice([{}, {"minItems": 1}])}
+        return {"t": "Array", "items": rng.choice([{"t": "Number", "kw": {}}, {"t": "String", "kw": {}},
+                                                   {"t": "Element", "kw": {}}]),
+                "kw": rng.choice([{}, {"minItems": 1}])}
     if roll < 0.9:
         return {"t": "Element", "kw": rng.choice([{}, {"minimum": 1}, {"enum": [1, "a", None]}])}
     return {"t": "Null", "kw": {}}
@@ -157,6 +159,23 @@ def expected_member(sut, fpm, pspec, supplied, value):
     return ("default_raw", "ok", fpm.fp_result(default))
 
 
+def scribble(sut, value, ctx):
+    try:
+        if isinstance(value, list):
+            value.append("caller-scribble")
+            ctx.count("defaults.scribbled")
+        elif isinstance(value, sut.Object):
+            value._dict["caller-scribble"] = 1  # pylint: disable=protected-access
+            for name in list(type(value).properties or {})[:1]:
+                setattr(value, name, "caller-scribble")
+            ctx.count("defaults.scribbled")
+        elif isinstance(value, dict):
+            value["caller-scribble"] = 1
+            ctx.count("defaults.scribbled")
+    except Exception:  # pylint: disable=broad-except
+        pass
+
+
 def check_object(ctx, sut, fpm, rng, spec, owner, props, kinds, overlap):
     index = gen_dsl.index_specs(spec)
     schema = gen_dsl.to_schema(spec, index)
@@ -194,7 +213,9 @@ def check_object(ctx, sut, fpm, rng, spec, owner, props, kinds, overlap):
         outcome, result, exc = sut.call(element, copy.deepcopy(value))
         if outcome != "ok":
             try:
-                allowed = refmodel.verdicts(schema, value, schema, curated=gv.CURATED)
+                # C05 reads the waiver strictly: an omitted property with a default is filled in, never
+                # an error - so the object is judged with the waiver ON
+                allowed = {refmodel.valid(schema, value, schema, refmodel.Dev(waiver=True, curated=gv.CURATED))}
             except Exception:  # pylint: disable=broad-except
                 allowed = {True, False}
             if allowed == {True} and outcome in ("ValidationError", "TypeError"):
@@ -234,6 +255,10 @@ def check_object(ctx, sut, fpm, rng, spec, owner, props, kinds, overlap):
                     "default_rule_broken", {**case, "property": name},
                     f"cell {cell}: expected {want[0]} {str(want[2])[:200]}, got {str(got)[:200]}")
                 break
+            # the caller may do anything with what it was given: scribble on container values so that a
+            # converted default shared between builds would show up in the next subset
+            if not supplied and want[0] == "default_converted":
+                scribble(sut, store[attr], ctx)
     ctx.sample({"spec": spec, "owner": owner}, every=60)
 
 
@@ -264,9 +289,21 @@ def no_value_calls(ctx, sut, fpm, rng):
                 continue
             ctx.count({"default_converted": "novalue.default_valid", "default_raw": "novalue.default_invalid",
                        "notpassed": "novalue.notpassed"}[want[0]])
-            if fpm.fp_result(got) != want[2]:
+            got_fp = fpm.fp_result(got)
+            if got_fp == want[2] and want[0] == "default_converted":
+                scribble(sut, got, ctx)
+                try:
+                    again = thunk()
+                    if fpm.fp_result(again) != want[2]:
+                        ctx.witness("novalue_rule_broken", {"spec": el_spec, "call": label + " (second call)",
+                                                            "kind": kind},
+                                    "after the caller modified the first result, a second call with no value "
+                                    f"returned {str(fpm.fp_result(again))[:200]}")
+                except Exception:  # pylint: disable=broad-except
+                    pass
+            if got_fp != want[2]:
                 ctx.witness("novalue_rule_broken", {"spec": el_spec, "call": label, "kind": kind},
-                            f"{label}: expected {want[0]} {str(want[2])[:200]}, got {str(fpm.fp_result(got))[:200]}")
+                            f"{label}: expected {want[0]} {str(want[2])[:200]}, got {str(got_fp)[:200]}")
 
 
 def ill_typed_keyword_defaults(ctx, sut):
